@@ -244,8 +244,8 @@ type wcurve struct {
 	a, b fe
 }
 
-func (c *wcurve) fld() *field         { return c.f }
-func (c *wcurve) identity() pt        { return pt{inf: true} }
+func (c *wcurve) fld() *field          { return c.f }
+func (c *wcurve) identity() pt         { return pt{inf: true} }
 func (c *wcurve) isIdentity(p pt) bool { return p.inf }
 
 func (c *wcurve) rhs(x fe) fe {
@@ -305,8 +305,8 @@ type ecurve struct {
 	a, d fe
 }
 
-func (c *ecurve) fld() *field   { return c.f }
-func (c *ecurve) identity() pt  { return pt{x: c.f.small(0), y: c.f.small(1)} }
+func (c *ecurve) fld() *field  { return c.f }
+func (c *ecurve) identity() pt { return pt{x: c.f.small(0), y: c.f.small(1)} }
 func (c *ecurve) isIdentity(p pt) bool {
 	return c.f.isZero(p.x) && c.f.eq(p.y, c.f.small(1))
 }
